@@ -13,7 +13,7 @@
    `fails` as [l, op, parts] and the judge resumes at the next Reset, so one run judges every trace.
    Acceptance = every line consumed (high-water mark in TLC register 1) and fails = <<>>; the driver
    reads both from the JUDGE line printed by the postcondition and maps parts to properties.        *)
-EXTENDS MiniDyn, Json
+EXTENDS MiniDyn, Grammar, Names, Json
 
 Trace == ndJsonDeserialize("trace.ndjson")
 
@@ -44,7 +44,7 @@ Tag(prefix, S) == { prefix \o p : p \in S }
 (* expression lab: e.op = "Match" (a condition) or "Apply" (an update) with bindings; e.r maps a channel name
    ("lang" = interpreter.Language called directly, "v1" / "v2" = conditional PutItem / UpdateItem through the
    client, "scan" = the condition as a Scan filter) to [o |-> outcome, after |-> [some, i]].                *)
-LabOps == {"Match", "Apply"}
+LabOps == {"Match", "Apply", "MatchText", "ApplyText"}
 \* a path is "blocked" when it runs into a present value that is not a map (for .name) / not a list (for [n])
 RECURSIVE BlockedIn(_,_)
 BlockedIn(val, steps) ==
@@ -88,18 +88,76 @@ UpdSig(u, item, names, values) ==
      { <<"set", u.set[i].v.k, Depth(u.set[i].p), u.set[i].p[Len(u.set[i].p)].s, ParentTy(u.set[i].p, item, names),
          PathTy(u.set[i].p, item, names), RhsTy(u.set[i].v, item, names, values)>> : i \in DOMAIN u.set }
   \cup { <<"remove", Depth(u.remove[i]), u.remove[i][Len(u.remove[i])].s, ParentTy(u.remove[i], item, names), PathTy(u.remove[i], item, names)>> : i \in DOMAIN u.remove }
-  \cup { <<"add", PathTy(u.add[i].p, item, names), RhsTy(u.add[i].v, item, names, values)>> : i \in DOMAIN u.add }
-  \cup { <<"delete", PathTy(u.del[i].p, item, names), RhsTy(u.del[i].v, item, names, values)>> : i \in DOMAIN u.del }
+  \cup { <<"add", Depth(u.add[i].p), PathTy(u.add[i].p, item, names), RhsTy(u.add[i].v, item, names, values)>> : i \in DOMAIN u.add }
+  \cup { <<"delete", Depth(u.del[i].p), PathTy(u.del[i].p, item, names), RhsTy(u.del[i].v, item, names, values)>> : i \in DOMAIN u.del }
   \cup (IF \E i \in DOMAIN u.set : \E t \in DOMAIN AllTargets(u) : \E r \in RhsReads(u.set[i].v) :
                ResolveOK(r, names) /\ ResolveOK(AllTargets(u)[t], names) /\ Overlap(Resolve(r, names), Resolve(AllTargets(u)[t], names))
                /\ Len(AllTargets(u)) > 1
          THEN { <<"rhs-reads-a-target">> } ELSE {})
   \cup (LET res == ApplyU(u, item, names, values, {"pk"}) IN
         IF ItemHasEmpty(item) \/ (res.ok /\ ItemHasEmpty(res.item)) THEN { <<"empty-container">> } ELSE {})
-LabSig(e) == IF e.op = "Match" THEN CondSig(e.ast, e.item, e.names, e.values) \cup (IF ItemHasEmpty(e.item) THEN { <<"empty-container">> } ELSE {})
+TextSig(e) == LET ts == Lex(e.text) IN
+              IF e.op = "MatchText" THEN (IF ParseCond(ts).ok THEN CondSig(ParseCond(ts).ast, e.item, e.names, e.values) ELSE { <<"not-a-sentence">> })
+              ELSE (IF ParseUpdate(ts).ok THEN UpdSig(ParseUpdate(ts).ast, e.item, e.names, e.values)
+                    ELSE IF LaxUpdate(ts) THEN { <<"not-a-sentence", "update-operand-kinds">> } ELSE { <<"not-a-sentence">> })
+LabSig(e) == IF e.op \in {"MatchText", "ApplyText"} THEN TextSig(e) ELSE
+             IF e.op = "Match" THEN CondSig(e.ast, e.item, e.names, e.values) \cup (IF ItemHasEmpty(e.item) THEN { <<"empty-container">> } ELSE {})
              ELSE UpdSig(e.ast, e.item, e.names, e.values)
 
+\* REMOVE below a parent that is missing or is not the right kind of container: no-op or error (D.3)
+SoftRemove(u, item, names) ==
+  \E i \in DOMAIN u.remove : Len(u.remove[i]) > 1 /\
+     LET pt == ParentTy(u.remove[i], item, names)
+         last == u.remove[i][Len(u.remove[i])].s
+     IN ~((pt = "M" /\ last \in {"n", "a"}) \/ (pt = "L" /\ last = "i"))
+
+\* text-level cases (C09 / C16): the judge lexes and parses the bytes itself.  A sentence is judged like a tree case;
+\* a non-sentence must be an error when e.strict (enumerated token strings), and must merely not crash otherwise
+TextFails(e) ==
+  LET ts == Lex(e.text)
+      cond == e.op = "MatchText"
+      pr == IF cond THEN ParseCond(ts) ELSE ParseUpdate(ts)
+      usedN == IF ~pr.ok THEN {} ELSE IF cond THEN CondNames(pr.ast) ELSE UpdNames(pr.ast)
+      usedV == IF ~pr.ok THEN {} ELSE IF cond THEN CondVals(pr.ast) ELSE UpdVals(pr.ast)
+      placeholdersOK == usedN = DOMAIN e.names /\ usedV = DOMAIN e.values
+  IN
+  UNION { LET out == e.r[ch]
+              direct == ch = "lang"
+              isErr == out.o = "E" \/ (out.o = "panic_syntax" /\ ~direct)
+          IN IF out.o \in {"crash", "timeout"} \/ (out.o = "panic_syntax" /\ direct) THEN { ch \o ".NoCrash" }
+             ELSE IF ~pr.ok THEN (IF e.strict /\ ~isErr THEN { ch \o ".Accepted" } ELSE {})
+             ELSE IF ~placeholdersOK /\ ~direct THEN (IF e.strict /\ ~isErr THEN { ch \o ".Placeholders" } ELSE {})
+             ELSE IF FnNameAsAttr(ts) THEN {}
+             ELSE IF ReservedUse(ts) THEN (IF e.strict /\ ~isErr THEN { ch \o ".Reserved" } ELSE {})
+             ELSE IF OddCaseKeyword(ts) /\ isErr THEN {}
+             ELSE IF ~cond /\ pr.rep /\ isErr THEN {}     \* repeated clause keyword: rejected, or applied as if merged (D.3)
+             ELSE IF cond
+             THEN LET allowed == CondOut(pr.ast, e.item, e.names, e.values) IN
+                  (IF (out.o \in {"T", "F"} /\ out.o \in allowed) \/ (isErr /\ "E" \in allowed) THEN {} ELSE { ch \o ".Outcome" })
+                  \cup (IF out.after.some /\ ~SameItem(out.after.i, e.item) THEN { ch \o ".Modified" } ELSE {})
+             ELSE LET res == ApplyU(pr.ast, e.item, e.names, e.values, {"pk"})
+                      tg == AllTargets(pr.ast)
+                      overlapping == \E i, j \in DOMAIN tg : i # j /\ ResolveOK(tg[i], e.names) /\ ResolveOK(tg[j], e.names)
+                                                             /\ Overlap(Resolve(tg[i], e.names), Resolve(tg[j], e.names))
+                  IN
+                  IF overlapping THEN {}     \* error or last-wins (D.3): only totality is demanded
+                  ELSE IF res.ok /\ SoftRemove(pr.ast, e.item, e.names) /\ isErr
+                  THEN (IF out.after.some /\ ~SameItem(out.after.i, e.item) THEN { ch \o ".Modified" } ELSE {})
+                  ELSE IF res.ok
+                  THEN (IF out.o = "ok" THEN {} ELSE { ch \o ".Outcome" })
+                       \cup (IF out.o = "ok" /\ ~(out.after.some /\ SameItem(out.after.i, res.item)) THEN { ch \o ".Result" } ELSE {})
+                  ELSE (IF isErr THEN {} ELSE { ch \o ".Outcome" })
+                       \cup (IF isErr /\ out.after.some /\ ~SameItem(out.after.i, e.item) THEN { ch \o ".Modified" } ELSE {})
+        : ch \in DOMAIN e.r }
+
+\* the harness printed a tree to text: re-parsing the text it actually sent must give the tree back
+PrinterFails(e) ==
+  IF e.op = "Match" THEN (IF ParseCond(Lex(e.text)).ok /\ ParseCond(Lex(e.text)).ast = e.ast THEN {} ELSE {"harness.Printer"})
+  ELSE (IF ParseUpdate(Lex(e.text)).ok /\ ParseUpdate(Lex(e.text)).ast = e.ast THEN {} ELSE {"harness.Printer"})
+
 LabFails(e) ==
+  IF e.op \in {"MatchText", "ApplyText"} THEN TextFails(e) ELSE
+  PrinterFails(e) \cup
   UNION { LET out == e.r[ch]
               direct == ch = "lang"
               isErr == out.o = "E" \/ (out.o = "panic_syntax" /\ ~direct)
@@ -109,11 +167,7 @@ LabFails(e) ==
                   (IF (out.o \in {"T", "F"} /\ out.o \in allowed) \/ (isErr /\ "E" \in allowed) THEN {} ELSE { ch \o ".Outcome" })
                   \cup (IF out.after.some /\ ~SameItem(out.after.i, e.item) THEN { ch \o ".Modified" } ELSE {})
              ELSE LET res == ApplyU(e.ast, e.item, e.names, e.values, {"pk"})
-                      \* REMOVE below a parent that is missing or is not the right kind of container: no-op or error (D.3)
-                      soft == \E i \in DOMAIN e.ast.remove : Len(e.ast.remove[i]) > 1 /\
-                                 LET pt == ParentTy(e.ast.remove[i], e.item, e.names)
-                                     last == e.ast.remove[i][Len(e.ast.remove[i])].s
-                                 IN ~((pt = "M" /\ last \in {"n", "a"}) \/ (pt = "L" /\ last = "i"))
+                      soft == SoftRemove(e.ast, e.item, e.names)
                   IN
                   IF res.ok /\ soft /\ isErr
                   THEN (IF out.after.some /\ ~SameItem(out.after.i, e.item) THEN { ch \o ".Modified" } ELSE {})
